@@ -46,7 +46,17 @@ def shape_phase(bus_case):
 
 
 def shape_label(B):
+    # `here:` written in a block nested in a named scope that has its own `here`, nested in the top-level scope that has one too
     res = shapes.resolver(B)
+    top = B.I.hget(B.st, res).fields["current_scope"]
+    B.I.hmut(B.st, B.I.hget(B.st, top).fields["symbols"]).items["here"] = B.int("top_here")
+    named = shapes.scope(B, res, top, symbols={"here": B.int("named_here")}, cls="a816.symbols.NamedScope", name="s")
+    B.I.hmut(B.st, B.I.hget(B.st, named).fields["labels"]).items["here"] = B.I.hget(B.st, B.I.hget(B.st, named).fields["symbols"]).items["here"]
+    block = shapes.scope(B, res, named)
+    lst = B.I.hmut(B.st, B.I.hget(B.st, res).fields["scopes"])
+    lst.items.append(named)
+    lst.items.append(block)
+    B.I.hmut(B.st, res).fields["current_scope"] = block
     node = B.inst(N + "LabelNode", symbol_name="here", resolver=res)
     return {"node": node, "addr": shapes.lorom_address(B)}
 
